@@ -46,6 +46,37 @@ fn run(a: &vhcore::Args) -> i32 {
     if cases.len() as u64 != oracle_values {
         vhcore::machinery_failure("case list and oracle self-test disagree on the number of values");
     }
+    // Encode-buffer boundary family: the encoder appends into a heap buffer of capacity 1024 that
+    // grows on demand; dynamically sized leaves (u64 length + payload) whose encoding ends in the
+    // last bytes before / exactly at / just past that capacity, alone and with a neighbour encoded
+    // before or after them.
+    let mut boundary = 0u64;
+    {
+        let text = |n: usize| -> String { (0..n).map(|i| (b'a' + (i % 26) as u8) as char).collect() };
+        let lens = [1007usize, 1008, 1009, 1015, 1016, 1017, 1020, 1024, 1025];
+        let mut push = |t: Ty, v: Val| {
+            cases.push(Case::new(&t, &v, Kind::RoundTrip));
+            boundary += 1;
+        };
+        for &l in &lens {
+            push(Ty::Str, Val::Str(text(l)));
+        }
+        for &l in &lens {
+            push(Ty::String, Val::String(text(l)));
+        }
+        for &l in &[1017usize, 1024] {
+            push(Ty::Bytes, Val::Bytes((0..l).map(|i| (i % 251) as u8).collect()));
+        }
+        for &l in &lens {
+            push(Ty::Tup(Box::new(Ty::U64), Box::new(Ty::Str)), Val::Agg(vec![Val::U(0x0102_0304_0506_0708), Val::Str(text(l))]));
+        }
+        for &l in &lens {
+            push(Ty::Tup(Box::new(Ty::Str), Box::new(Ty::Str)), Val::Agg(vec![Val::Str(text(l)), Val::Str("xyz".into())]));
+        }
+        for &l in &lens {
+            push(Ty::Tup(Box::new(Ty::String), Box::new(Ty::String)), Val::Agg(vec![Val::String(text(l)), Val::String(text(5))]));
+        }
+    }
     let plan = stages(&cases, max_edges > 2, env_usize("VH_C09_CHUNK_TYPES", 2500));
     if std::env::var("VH_STATS_ONLY").is_ok() {
         println!("types={} cases={} stages={:?}", sp.types.len(), cases.len(), plan.iter().map(|s| (s.label.clone(), s.idx.len())).collect::<Vec<_>>());
@@ -87,6 +118,7 @@ fn run(a: &vhcore::Args) -> i32 {
     rep.set("types_per_size_in_edges", json!(sp.per_size));
     rep.set("max_edges", max_edges as u64);
     rep.set("values", cases.len() as u64);
+    rep.set("encode_buffer_boundary_values", boundary);
     rep.set("values_also_run_in_release_profile", release_cases);
     rep.set("stages", json!(camp.stages_done));
     rep.set("distinct_outcomes", outcomes.len() as u64);
